@@ -20,6 +20,7 @@ RULE = (
     'object holds at call time, distances from the image enumeration.  Non-trivial = at least two jumps, at least '
     'one event into or out of no-site and more than one label; distinct = SHA-1 of (states, sites, labels).'
 )
+RULE += ' Round 16: a third of the objects are rebuilt around their event table with the named columns permuted; matrix / counter are re-derived on that object.'
 RULE += ' Round 14: to_graph thresholds equal to the e_act of an existing edge (inclusive window).'
 RULE += ' Round 12: under default settings the jump matrix is also compared with the moves counted in the state history (C04 model), including atoms that only ever hop directly from site to site (p_direct 0.9 / 1.0 systems).'
 RULE += " Added in rounds 5-10: parts of Jumps.split recounted with the parent's minimal_residence; number of parts checked; sites holding more than one atom on average (loud refusal accepted, other numbers not)."
@@ -280,6 +281,28 @@ def run_unit(unit, rng, ctx):
                 return
             raise
         check_transitions_matrix(tr, ctx, what, wit)
+        if unit['i'] % 3 == 1 and len(tr.events) >= 1:
+            # the same object rebuilt around its event table with the named columns in another order (a hand-built
+            # table, set_index / reset_index): the bookkeeping reads the columns by name
+            from gemdat.transitions import Transitions
+
+            cols_ = [str(c_) for c_ in rng.permutation(list(tr.events.columns))]
+            tr_p = Transitions(trajectory=tr.trajectory, diff_trajectory=tr.diff_trajectory, sites=tr.sites, events=tr.events[cols_].copy(), states=np.asarray(tr.states).copy(), inner_states=np.asarray(tr.inner_states).copy())
+            check_transitions_matrix(tr_p, ctx, what + f' [event table columns ordered {cols_}]', wit)
+            try:
+                j_p = tr_p.jumps()
+            except ValueError as exc:
+                if 'No jumps found' not in str(exc):
+                    raise
+                j_p = None
+            if j_p is not None:
+                rows_p = Counter((int(a_), int(b_)) for a_, b_ in j_p.data[['start site', 'destination site']].to_numpy())
+                want_p = np.zeros((tr_p.n_sites, tr_p.n_sites), dtype=int)
+                for (a_, b_), c_ in rows_p.items():
+                    want_p[a_, b_] += c_
+                got_p = np.asarray(j_p.matrix())
+                ctx.check(got_p.shape == want_p.shape and np.array_equal(got_p, want_p) and dict(j_p._counter()) == dict(rows_p), f'{what} [event table columns ordered {cols_}]: Jumps.matrix() / _counter() are not the counts of the (origin, destination) columns of the jump table', {**wit, 'got': got_p, 'want': want_p})
+            ctx.count('objects_rebuilt_around_a_column_permuted_event_table')
         st_ = np.asarray(tr.states)
         if max((np.sum(st_ == i_) for i_ in range(tr.n_sites)), default=0) > len(st_):
             # a site holding more than one atom on average: everything that builds on the occupancies is refused
